@@ -935,7 +935,7 @@ func genC13(w *bufio.Writer, rng *hx.Rng, tier string) {
 	// from event fields (countEvent), real Propagate / Spawn / stream time-outs
 	nPipe := 20
 	if full {
-		nPipe = 300
+		nPipe = 120
 	}
 	for _, p := range c13Plugins {
 		sys := c13Systematic(p)
